@@ -108,6 +108,8 @@ type clWorld struct {
 	prevCheckTime time.Time
 	prevLiquidity osmomath.Dec
 	incDust       map[string]*big.Rat // allowance for truncated incentive emissions, per denom
+	liquidAfterStart map[uint64]time.Duration // the same, counted from the record's start time
+	uptimeGov        bool                     // governance has changed the authorised uptimes during this history
 	// the neighbour pool (0 = none) and its positions (id -> owner index)
 	nbrID  uint64
 	nbrPos map[uint64]int
@@ -670,6 +672,7 @@ func (w *clWorld) step(mix string) string {
 		p.AuthorizedUptimes = sub
 		k.SetParams(w.ch.Ctx, p)
 		w.uptimes = sub
+		w.uptimeGov = true
 		w.c.Logf("governance: authorised uptimes = %v", sub)
 		return "governance-uptimes"
 	}
